@@ -99,9 +99,23 @@ def h_dest_admission(ctx, kind, id_w, seq_w, busy):
         ctx.prop("refusal_changes_nothing", pre == post and not o.pdus)
 
 
-def _src_in_step(ctx, w, ids, mode, want_step):
+def _src_in_step(ctx, w, ids, mode, want_step, idle=None):
     rig = SrcRig(w, ids, mode=mode, closure=True, seg_len=8)
     rig.fs.add_source_file("/src/file.bin", 4)
+    if idle == "fresh":
+        return rig
+    if idle == "again":
+        # a complete unacknowledged transaction without closure, then idle again
+        o = rig.put(mode=UNACK, closure=False)
+        for _ in range(6):
+            if rig.idle and o.call != ("put",):
+                break
+            o = rig.sm()
+            if o.exc is not None:
+                raise o.exc
+        if not rig.idle:
+            raise AssertionError("source rig did not return to idle")
+        return rig
     o = rig.put()
     if o.exc is not None or o.ret is not True:
         raise AssertionError("put request failed in the C20 rig")
@@ -118,12 +132,16 @@ def h_src_admission(ctx, kind, id_w, seq_w, step):
     w = World(ctx)
     ids = Ids(id_w, seq_w)
     mode = ctx.pick("mode", [ACK, UNACK])
-    want_step = SStep[step]
-    if mode == UNACK and want_step == SStep.WAITING_FOR_EOF_ACK:
-        ctx.end("infeasible")
-    rig = _src_in_step(ctx, w, ids, mode, want_step)
-    # PDU of the running transaction: same ids, sequence number, mode, flags as the handler uses
-    conf = rig.h.pdu_conf
+    if step in ("IDLE_FRESH", "IDLE_AGAIN"):
+        rig = _src_in_step(ctx, w, ids, mode, None, idle="fresh" if step == "IDLE_FRESH" else "again")
+        conf = rigs.pdu_conf(ids, mode)
+    else:
+        want_step = SStep[step]
+        if mode == UNACK and want_step == SStep.WAITING_FOR_EOF_ACK:
+            ctx.end("infeasible")
+        rig = _src_in_step(ctx, w, ids, mode, want_step)
+        # PDU of the running transaction: same ids, sequence number, mode, flags as the handler uses
+        conf = rig.h.pdu_conf
     pdu = build(ctx, w, kind, conf)
     d = ctx.pick("dir", [Direction.TOWARDS_RECEIVER, Direction.TOWARDS_SENDER])
     rigs.set_direction(pdu, d)
@@ -173,7 +191,7 @@ def h_inactive_ack(ctx, id_w, seq_w):
 
 WIDTHS = {"quick": [(2, 2), (1, 1), (8, 4)],
           "thorough": [(i, s) for i in (1, 2, 4, 8) for s in (1, 2, 4)]}
-SRC_STEPS = ["SENDING_FILE_DATA", "WAITING_FOR_EOF_ACK", "WAITING_FOR_FINISHED"]
+SRC_STEPS = ["SENDING_FILE_DATA", "WAITING_FOR_EOF_ACK", "WAITING_FOR_FINISHED", "IDLE_FRESH", "IDLE_AGAIN"]
 
 
 def plan(tier):
@@ -196,7 +214,7 @@ def plan(tier):
 
 
 BOUNDS = {
-    "quick": "all 9 PDU kinds (8 classes, ACK split by acknowledged directive) x direction flag x mode x CRC flag x large-file flag x condition code x transaction status; id/seq widths (2,2),(1,1),(8,4); handler states: destination idle / busy after Metadata, source in SENDING_FILE_DATA / WAITING_FOR_EOF_ACK / WAITING_FOR_FINISHED; sizes and offsets symbolic in [0, 2^32)",
+    "quick": "all 9 PDU kinds (8 classes, ACK split by acknowledged directive) x direction flag x mode x CRC flag x large-file flag x condition code x transaction status; id/seq widths (2,2),(1,1),(8,4); handler states: destination idle / busy after Metadata, source in SENDING_FILE_DATA / WAITING_FOR_EOF_ACK / WAITING_FOR_FINISHED / idle (fresh) / idle again after a transaction; sizes and offsets symbolic in [0, 2^32)",
     "thorough": "as quick with all 12 id/seq width pairs",
 }
 OUTSIDE = "ACK PDUs acknowledging anything but EOF/Finished cannot be constructed or parsed by spacepackets and are not considered; TLV options"
@@ -210,5 +228,5 @@ MANIFEST = {
     "technique": "bounded symbolic execution (z3-forked enumeration of the finite PDU space, numeric fields symbolic) of the real routing helper and both admission checks",
     "design_ref": "DESIGN.md 7.20",
     "level_text": "The routing helper and both handlers' admission checks are run on every PDU kind x direction flag x mode x CRC flag x large-file flag x condition code x status x id widths, in idle/busy destination states and three source steps; routing table, routing<->admission agreement, unchanged state after refusal and the inactive-EOF acknowledgement helper are asserted on every path. The space is finite and covered completely at the listed handler states; each path is also re-run concretely through pack()/unpack().",
-    "level_note": "Trusted: z3, symex proxies (all paths re-run concretely), spacepackets (executed). Handler states other than the five listed are outside the claim.",
+    "level_note": "Trusted: z3, symex proxies (all paths re-run concretely), spacepackets (executed). Handler states other than the seven listed are outside the claim.",
 }
